@@ -253,6 +253,8 @@ class _RunState:
         self.n_calls = 0     # scripted calls made so far (by caller threads and by relaying worker threads)
         self.wseq = collections.Counter()    # per-route issue counters of the calls made by worker threads
         self.programs = {}   # caller number -> the function a task thread / event-loop callback runs
+        self.sendfault = None   # (k, exception class name): the k-th probe request handed to a TCP connection fails to be sent
+        self.sf_count = 0
 
 
 RUN = _RunState()
@@ -437,6 +439,13 @@ def taps():
         k = _hit_key(message)
         if k:
             _log("send", _me(), k, self._message_router.context_name, message.destination_address.context_id)
+            sf = RUN.sendfault
+            if sf is not None:
+                RUN.sf_count += 1
+                if RUN.sf_count - 1 == sf[0]:
+                    # a transient failure of the OS send call: the bytes of this request never reach the stream
+                    _log("send-failed", _me(), k, sf[1] + ":injected")
+                    raise SENDFAULT_EXC[sf[1]](f"injected {sf[1]} at probe request #{sf[0]}")
         try:
             return orig_psend(self, message)
         except BaseException as e:
@@ -887,7 +896,8 @@ def sanitize(scn) -> dict:
     return {"contexts": scn["contexts"], "objects": list(scn["objects"]), "objtypes": objtypes, "callers": out,
             "removals": [list(r) for r in scn.get("removals", [])],
             "share": bool(scn.get("share")) and not locks,           # callers of one context share one proxy per object
-            "eager": float(scn.get("eager", 0.0))}                   # probability that a pending timed wait fires early
+            "eager": float(scn.get("eager", 0.0)),                   # probability that a pending timed wait fires early
+            **({"sendfault": [int(scn["sendfault"][0]), str(scn["sendfault"][1])]} if scn.get("sendfault") else {})}
 
 
 def scenario_is_nontrivial(scn) -> bool:
@@ -967,7 +977,7 @@ def make_body(scn):
                     return "locked"
                 if type(e).__name__ == "QMI_MessageDeliveryException" and "pickle" in str(e).lower():
                     return "reply-not-serialisable"    # e.g. QMI_Instrument.__enter__ returns `self`: cannot travel to a peer
-                if type(e).__name__ == "QMI_MessageDeliveryException" and o in removed_objs:
+                if type(e).__name__ == "QMI_MessageDeliveryException" and (o in removed_objs or scn.get("sendfault")):
                     return "undelivered"
                 if type(e).__name__ == "QMI_RpcTimeoutException":
                     return "timeout"
@@ -1153,6 +1163,8 @@ def run_impl(seed, scn, policy="weighted", change_points=None, extra_trace=False
     import qmi.core.rpc as R
     global RUN
     RUN = _RunState()
+    if scn.get("sendfault"):
+        RUN.sendfault = (int(scn["sendfault"][0]), str(scn["sendfault"][1]))
     PC = probe_classes()
     # line-level yield points inside everything that executes "on the object"
     tf = PC["traced"] + [R.QMI_RpcObject.get_name, R.QMI_RpcObject.get_signals, R._RpcThread._handle_lock_rpc_request]
@@ -1357,6 +1369,8 @@ def oracle(scn, events):
     threads = collections.defaultdict(list)
     removed = set()
     removable = {r[0] for r in scn.get("removals", [])}
+    if scn.get("sendfault"):
+        removable = set(range(len(scn["objects"])))     # the call whose request could not be sent is answered with an error
     worker = {}
     in_hook = collections.defaultdict(bool)
     secondary = None
@@ -1485,6 +1499,32 @@ def completion_problem(out, events, scn):
     if any(e[0] in ("tap-missing", "fifo?") for e in events):
         return "tap point missing or unknown fifo operation: " + repr([e for e in events if e[0] in ("tap-missing", "fifo?")][0])
     return None
+
+
+SENDFAULT_EXC = {"InterruptedError": InterruptedError, "BlockingIOError": BlockingIOError, "OSError": OSError,
+                 "BrokenPipeError": BrokenPipeError, "ConnectionResetError": ConnectionResetError, "TimeoutError": TimeoutError,
+                 "RuntimeError": RuntimeError}
+
+
+def sendfault_scenarios(quick: bool):
+    """A request that the OS refuses to send (every exception class, at every position of a burst of calls of one thread
+    to a peer's object, alone and with a second caller / a local bystander): whatever the sender does about it, the calls
+    of the route that ARE executed must be executed in issue order."""
+    progs = [[["n", 0], ["n", 0], ["n", 0], ["b", 0]],
+             [["n", 0], ["n", 0], ["n", 0], ["n", 0], ["w", 0], ["w", 1], ["w", 2], ["w", 3]],
+             [["b", 0], ["n", 0], ["n", 0], ["b", 0]]]
+    excs = ["InterruptedError", "BlockingIOError", "OSError"] if quick else list(SENDFAULT_EXC)
+    out = []
+    for pi, prog in enumerate(progs if not quick else progs[:2]):
+        ncalls = sum(1 for op in prog if op[0] != "w")
+        for k in range(ncalls):
+            for exc in excs:
+                out.append(sanitize({"contexts": 2, "objects": [0], "callers": [{"ctx": 1, "prog": prog}], "sendfault": [k, exc]}))
+        out.append(sanitize({"contexts": 2, "objects": [0], "sendfault": [1, excs[pi % len(excs)]],
+                             "callers": [{"ctx": 1, "prog": prog}, {"ctx": 0, "prog": [["n", 0], ["b", 0]]}]}))
+        out.append(sanitize({"contexts": 3, "objects": [0], "sendfault": [2, excs[(pi + 1) % len(excs)]],
+                             "callers": [{"ctx": 1, "prog": prog}, {"ctx": 2, "prog": prog}]}))
+    return out
 
 
 def _sig(v):
@@ -1765,6 +1805,29 @@ class C03(Prop):
             if len(batch) >= 200:
                 self._flush(batch, res)
         self._flush(batch, res)
+        # send-fault family (oracle only: the model has no action for a request the OS refuses to send): the k-th probe request
+        # handed to a TCP connection raises, for every exception class and every position of a burst, under several schedules
+        for si, scn in enumerate(sendfault_scenarios(ctx.quick)):
+            for j in range(ctx.scale(4, 16)):
+                pol = "pct" if j % 2 else "weighted"
+                case = {"seed": f"{ctx.seed}:sf{si}:{j}", "scn": scn, "policy": pol, "change_points": None, "extra_trace": False}
+                out = run_impl(case["seed"], scn, policy=pol)
+                events = list(out.sched.events)
+                res.note_case((repr(scn), case["seed"], pol), nontrivial=True)
+                res.count("sendfault_runs")
+                res.count("sendfault_exc_" + scn["sendfault"][1])
+                if any(e[0] == "send-failed" and str(e[3]).endswith(":injected") for e in events):
+                    res.count("sendfault_runs_fault_fired")
+                if any(e[0] == "result" and e[3] == "undelivered" for e in events):
+                    res.count("sendfault_runs_caller_saw_delivery_error")
+                if out.deadlock or out.budget or out.error is not None:
+                    if len([b for b in res.broken if b.name == "send-fault scenario did not complete"]) < 3:
+                        res.broken.append(Broken("correspondence", "send-fault scenario did not complete",
+                                                 f"deadlock={str(out.deadlock)[:200]} budget={out.budget} error={out.error!r}", case=case))
+                    continue
+                v = oracle(scn, events)
+                if v is not None and v[0] != "order-across-routes":
+                    self._fail(ctx, res, case, (v[0], v[1], v[2] + ":after-send-fault", v[3]), shrink=False)
         # malformed stream: the driver must refuse, never default
         bad = ["", "issue", "issue 1 2 3", "pop x 0 0 0 0", "enter 1 0 0 0", "lookW 1 0 0 0 0", "nonsense 1 2 3", "final x",
                "thread", "thread a", "ctx", "object a b", "start 0", "finish 1 0 0 0 -1", "unreg", "leave 1", "reject 1 0 0 0",
